@@ -5,6 +5,7 @@ import CgtModel.Dsl
 import CgtModel.Awards
 import CgtModel.Format
 import CgtModel.Validate
+import CgtModel.Schwab
 /-! Line protocol: token parsers and printers shared by all driver commands. -/
 namespace Cgt.Wire
 open Cgt
@@ -312,6 +313,43 @@ def parseAward? (s : String) : Option Awards.Award :=
     | some o, some a, some ds => some { date := o, action := a, symbol := sym, details := ds }
     | _, _, _ => none
   | _ => none
+
+def parseOptRat1? (s : String) : Option (Option Rat) :=
+  if s = "-" then some none else (parseRat? s).map some
+
+/-- `B,ord,SYM,q,p,f|-` `S,…` `X,ord,SYM,q,p` `D,ord,SYM,amt|-` `N,ord,SYM|-,amt|-` `K,ord,SYM` `O` `U` -/
+def parseRow? (s : String) : Option Schwab.Row :=
+  match s.splitOn "," with
+  | ["B", d, sym, q, p, f] =>
+    match parseInt? d, parseRat? q, parseRat? p, parseOptRat1? f with
+    | some d, some q, some p, some f => some (.buy d sym q p f)
+    | _, _, _, _ => none
+  | ["S", d, sym, q, p, f] =>
+    match parseInt? d, parseRat? q, parseRat? p, parseOptRat1? f with
+    | some d, some q, some p, some f => some (.sell d sym q p f)
+    | _, _, _, _ => none
+  | ["X", d, sym, q, p] =>
+    match parseInt? d, parseRat? q, parseRat? p with
+    | some d, some q, some p => some (.cancelSell d sym q p)
+    | _, _, _ => none
+  | ["D", d, sym, a] =>
+    match parseInt? d, parseOptRat1? a with
+    | some d, some a => some (.dividend d sym a)
+    | _, _ => none
+  | ["N", d, sym, a] =>
+    match parseInt? d, parseOptRat1? a with
+    | some d, some a => some (.nra d (if sym = "-" then none else some sym) a)
+    | _, _ => none
+  | ["K", d, sym] => (parseInt? d).map (fun d => .split d sym)
+  | ["O"] => some .nonCgt
+  | ["U"] => some .unknown
+  | _ => none
+
+def showItem : Schwab.Item → String
+  | .buy d s q p f => s!"B:{d}:{s}:{showRat q}:{showRat p}:{showRat f}"
+  | .sell d s q p f => s!"S:{d}:{s}:{showRat q}:{showRat p}:{showRat f}"
+  | .dividend d s a t => s!"D:{d}:{s}:{showRat a}:{showRat t}"
+  | .comment => "C"
 
 def showCalcErr (l : List Tx) : CalcErr → String
   | .matcher e => showMErr l e
